@@ -945,6 +945,100 @@ def valid (ctx : Ctx) (x : Sideloaded) : Bool :=
   x.recordId == ctx.recordId && x.subregions.all (SubAnn.valid ctx.origin) && x.protoclusters.all (ProtoAnn.valid ctx.origin)
 end Sideloaded
 
+/-! #### the sideloader's own options: load_single_record_annotations, run_on_record,
+     regenerate_previous_results as a function of every option the module reads -/
+
+/-- what the sideloader sees of the record -/
+structure RecInfo where
+  id : String
+  originalId : Option String := none
+  length : Int
+  circular : Bool
+  /-- (name, start, end) of every CDS feature -/
+  cds : List (String × Int × Int)
+deriving Repr, Inhabited
+
+/-- every option the sideloader reads, one field each.  The annotation *files* are represented by
+    what they parse to for this record (`fileSubs`, `fileProtos`: schema validation and
+    `from_schema_json` are input parsing) and by how many were named (`nFiles`, for `is_enabled`). -/
+structure SideOpts where
+  nFiles : Nat := 0
+  fileSubs : List SubAnn := []
+  fileProtos : List ProtoAnn := []
+  /-- `--sideload-simple ACCESSION:START-END` -/
+  simple : Option (String × Int × Int) := none
+  /-- `--sideload-by-cds` -/
+  markers : List String := []
+  /-- `--sideload-size-by-cds` -/
+  padding : Int := 20000
+deriving Repr, Inhabited
+
+namespace RecInfo
+def origin (r : RecInfo) : Option Int := if r.circular then some r.length else none
+/-- `record.has_name` -/
+def hasName (r : RecInfo) (n : String) : Bool :=
+  n == r.id || (match r.originalId with | some o => n == o | none => false)
+def ctx (r : RecInfo) : Ctx := ⟨r.id, r.cds.map (·.1), r.origin⟩
+end RecInfo
+
+/-- the tool of command-line annotations -/
+def manualTool : Tool := ⟨"manual", "N/A", "command line argument", []⟩
+
+namespace SideOpts
+/-- `is_enabled(options)` -/
+def enabled (o : SideOpts) : Bool := o.nFiles != 0 || o.simple.isSome || !o.markers.isEmpty
+
+/-- the `--sideload-simple` sub-region, if it names this record -/
+def manualArea (r : RecInfo) (o : SideOpts) : Outcome (List SubAnn) :=
+  match o.simple with
+  | some (acc, s, e) =>
+    if r.hasName acc then (SubAnn.make s (min e r.length) "" manualTool [] r.origin).map' fun x => [x]
+    else .reuse []
+  | none => .reuse []
+
+/-- one `--sideload-by-cds` sub-region: the gene padded by `--sideload-size-by-cds` on both sides;
+    wrapped on a circular record, clamped on a linear one; unknown genes are skipped (warning) -/
+def markerArea (r : RecInfo) (padding : Int) (name : String) : Outcome (Option SubAnn) :=
+  match r.cds.find? (·.1 == name) with
+  | none => .reuse none
+  | some (_, cs, ce) =>
+    let start := cs - padding
+    let stop := ce + padding
+    if r.circular then
+      (SubAnn.make ((start + r.length) % r.length) (stop % r.length) name manualTool [] (some r.length)).map' some
+    else (SubAnn.make (max 0 start) (min stop r.length) name manualTool [] none).map' some
+
+/-- `load_single_record_annotations(options.sideload, record, options.sideload_simple,
+    options.sideload_cds_markers, options.sideload_cds_padding)` (the final "area contains a complete
+    CDS" input check is not modelled) -/
+def load (r : RecInfo) (o : SideOpts) : Outcome Sideloaded := do
+  let manual ← manualArea r o
+  let marked ← mapO (markerArea r o.padding) o.markers
+  pure ⟨r.id, o.fileSubs ++ manual ++ marked.filterMap id, o.fileProtos⟩
+
+/-- `run_on_record(record, previous_results, options)` -/
+def runOnRecord (r : RecInfo) (o : SideOpts) (previous : Option Sideloaded) : Outcome Sideloaded :=
+  match previous with
+  | some p => .reuse p
+  | none => load r o
+
+/-- `regenerate_previous_results(results, record, options)` with the options spelled out -/
+def regenerate (r : RecInfo) (o : SideOpts) (j : J) : Outcome Sideloaded :=
+  if o.enabled then
+    match j with
+    | .obj [] => .discard
+    | _ =>
+      -- the stored results are decoded first; an error there comes before loading
+      match Sideloaded.fromJson r.ctx j with
+      | .reuse _ =>
+        match load r o with
+        | .reuse req => Sideloaded.regenerate r.ctx (some req) j
+        | .discard => .discard
+        | .refuse e => .refuse e
+      | other => other
+  else Sideloaded.regenerate r.ctx none j
+end SideOpts
+
 /-! ### HMMer-based results (hmmer.py, full_hmmer / cluster_hmmer) -/
 
 structure HmmerHit where
@@ -1067,6 +1161,65 @@ def domainIds (x : HmmerRes) : List String :=
 def valid (ctx : Ctx) (x : HmmerRes) : Bool :=
   x.recordId == ctx.recordId && x.hits.all fun h => h.valid && Dec.le x.score h.score && Dec.le h.evalue x.evalue
 end HmmerRes
+
+/-! #### full_hmmer / cluster_hmmer run_on_record: the PFAM database version guard -/
+
+inductive HmmerModule where
+  | full | cluster
+deriving DecidableEq, Repr, Inhabited
+
+/-- the options the two modules read, one field each, plus what
+    `pfamdb.find_latest_database_version(options.database_dir)` finds -/
+structure PfamOpts where
+  fullVersion : String := "latest"
+  clusterVersion : String := "latest"
+  latestAvailable : String
+deriving Repr, Inhabited
+
+/-- `str.split(sep)` -/
+def splitGo (sep : Char) : List Char → List Char → List (List Char)
+  | acc, [] => [acc.reverse]
+  | acc, c :: rest => if c == sep then acc.reverse :: splitGo sep [] rest else splitGo sep (c :: acc) rest
+def splitPath (p : String) : List String := (splitGo '/' [] p.toList).map String.ofList
+
+/-- the element after the last `"pfam"` -/
+def afterLastPfam : List String → Option String → Option String
+  | [], found => found
+  | x :: rest, found =>
+    if x == "pfam" then afterLastPfam rest (rest.head?) else afterLastPfam rest found
+
+/-- `pfamdb.get_db_version_from_path` (the float-format check on the version is not modelled) -/
+def dbVersionOfPath (p : String) : Outcome String :=
+  let parts := splitPath p
+  if !parts.contains "pfam" then .refuse .value
+  else match afterLastPfam parts none with
+    | some v => .reuse v
+    | none => .refuse .value      -- "pfam" is the last component (IndexError in the code)
+
+namespace PfamOpts
+/-- the version this module's run uses: its *own* option, `latest` resolved against the database directory -/
+def wanted (m : HmmerModule) (o : PfamOpts) : String :=
+  let v := match m with
+    | .full => o.fullVersion
+    | .cluster => o.clusterVersion
+  if v == "latest" then o.latestAvailable else v
+end PfamOpts
+
+/-- what `run_on_record` does with regenerated results: keep them, or search again in a database -/
+inductive HmmerRun where
+  | keep (r : HmmerRes)
+  | rerun (version : String)
+deriving DecidableEq, Repr
+
+/-- `run_on_record(record, results, options)` of full_hmmer / cluster_hmmer -/
+def hmmerRunOnRecord (m : HmmerModule) (o : PfamOpts) (results : Option HmmerRes) : Outcome HmmerRun :=
+  match results with
+  | some r =>
+    match dbVersionOfPath r.database with
+    | .reuse prev => if o.wanted m == prev then .reuse (.keep r) else .reuse (.rerun (o.wanted m))
+    | .discard => .discard
+    | .refuse e => .refuse e
+  | none => .reuse (.rerun (o.wanted m))
 
 /-! ### TTA -/
 
